@@ -485,6 +485,18 @@ func workLeaf(c *Ctx, isDay func(fr *evalFrame, v ssa.Value) bool, in workAtoms,
 					return nil, false
 				}
 				return in.week, true
+			case "SolarUtil.GetWeek":
+				// the weekday computed from (year, month, day): of the day in question
+				want := []string{"Solar.year", "Solar.month", "Solar.day"}
+				for i, a := range call.Common().Args {
+					ofr, ov := fr.origin(a)
+					recv, f, ok := getterField(c, ov)
+					if !ok || i >= 3 || f != want[i] || !isDay(ofr, recv) {
+						problems["the weekday of something other than (year, month, day) of the day in question is consulted"] = true
+						return nil, false
+					}
+				}
+				return in.week, true
 			}
 		}
 		if rest != nil {
@@ -513,7 +525,16 @@ func r14_4(c *Ctx, r *Report) {
 	const rule = "R14.4"
 	r.rule(rule, "Decisions, read as decision tables over abstract inputs (record absent / make-up day / day off, weekday 0..6, and for the pay rate representative civil and lunar month-day values and the term name): the evaluator follows the branch conditions of the code (helpers inline) for every assignment, no library code runs. A day counts in the workday walk iff record == nil ? weekday not in {0,6} : record.IsWork(), the record and the weekday being those of the stepped day itself, and the walk steps by exactly one day per iteration in the sign of n. The pay rate is 3 on 1/1, 5/1, 10/1-3, lunar 1/1-3, 5/5, 8/15 and Qingming; otherwise 2 when a recorded day is not a make-up day or an unrecorded day is a weekend; else 1.")
 	if fn := c.Fn(r, rule, "calendar.(*Solar).Next"); fn != nil {
-		r14_4_walk(c, r, rule, fn)
+		// the walk may sit in an unexported worker the method hands its date to
+		walk := fn
+		if loops, _ := findLoops(fn); len(loops) == 0 {
+			for _, h := range withHelpers(c, fn) {
+				if loops, _ := findLoops(h); h != fn && len(loops) > 0 {
+					walk = h
+				}
+			}
+		}
+		r14_4_walk(c, r, rule, walk)
 	}
 	if fn := c.Fn(r, rule, "calendar.(*Solar).GetSalaryRate"); fn != nil {
 		r14_4_rate(c, r, rule, fn)
